@@ -547,9 +547,7 @@ func ParseLike(pattern string) ([]LikeElem, error) {
 		switch c {
 		case '%':
 			flush()
-			if len(out) == 0 || !out[len(out)-1].Any {
-				out = append(out, LikeElem{Any: true})
-			}
+			out = append(out, LikeElem{Any: true})
 		case '_':
 			flush()
 			out = append(out, LikeElem{One: true})
@@ -594,23 +592,11 @@ func UnescapeLike(pattern string) (string, bool) {
 // that form, core contains an active wildcard, or the pattern is invalid). This is the
 // "contains" idiom the LogQL line-filter planner emits.
 func LikeCore(pattern string) (string, bool) {
-	el, err := ParseLike(pattern)
-	if err != nil || len(el) < 2 || !el[0].Any || !el[len(el)-1].Any {
+	if len(pattern) < 2 || pattern[0] != '%' || pattern[len(pattern)-1] != '%' {
 		return "", false
 	}
-	// "%%" parses to a single Any element: core is empty.
-	mid := el[1 : len(el)-1]
-	if !strings.HasPrefix(pattern, "%") {
-		return "", false
-	}
-	var b strings.Builder
-	for _, e := range mid {
-		if e.Any || e.One {
-			return "", false
-		}
-		b.WriteString(e.Bytes)
-	}
-	return b.String(), true
+	// If the final % was escaped, the middle ends in a dangling backslash and fails to parse.
+	return UnescapeLike(pattern[1 : len(pattern)-1])
 }
 
 // EscapeLike escapes s so that it matches itself literally inside a LIKE pattern.
@@ -628,12 +614,35 @@ func LikeMatch(pattern, s string, fold bool) (bool, error) {
 		return false, err
 	}
 	if fold {
-		s = strings.ToLower(s)
+		s = foldCase(s)
 		for i := range el {
-			el[i].Bytes = strings.ToLower(el[i].Bytes)
+			el[i].Bytes = foldCase(el[i].Bytes)
 		}
 	}
-	return likeRec(el, s), nil
+	// collapse runs of % (pure optimisation: keeps the backtracking matcher polynomial)
+	cl := el[:0:0]
+	for _, e := range el {
+		if e.Any && len(cl) > 0 && cl[len(cl)-1].Any {
+			continue
+		}
+		cl = append(cl, e)
+	}
+	return likeRec(cl, s), nil
+}
+
+// foldCase lower-cases for case-insensitive matching. Invalid UTF-8 is folded bytewise
+// over ASCII only (strings.ToLower would rewrite the invalid bytes).
+func foldCase(s string) string {
+	if utf8.ValidString(s) {
+		return strings.ToLower(s)
+	}
+	b := []byte(s)
+	for i, c := range b {
+		if c >= 'A' && c <= 'Z' {
+			b[i] = c + 32
+		}
+	}
+	return string(b)
 }
 
 func likeRec(el []LikeElem, s string) bool {
